@@ -88,6 +88,8 @@ func init() {
 					return res
 				}},
 			{Name: "isolation-shared", Module: "Isolation", Cfg: "Isolation_shared.cfg", Workers: 1, XmxMB: 2000, Timeout: 5 * time.Minute, ExpectViolation: "NoInterference"},
+			{Name: "subsetsync-drain", Module: "SubsetSync", Cfg: "SubsetSync_drain.cfg", Workers: 2, XmxMB: 2000, Timeout: 5 * time.Minute},
+			{Name: "subsetsync-nodrain", Module: "SubsetSync", Cfg: "SubsetSync_nodrain.cfg", Workers: 1, XmxMB: 2000, Timeout: 5 * time.Minute, ExpectViolation: "NoRace"},
 		},
 		Cover: func(t core.Case, cov map[string]int) bool {
 			for _, e := range evs(t) {
